@@ -93,7 +93,6 @@ class Frame:
         self.module = module
         self.parent = parent
         self.locals: Dict[str, Any] = {}
-        self.yields: List[Any] = []
         self.loop_labels: Dict[int, str] = {}
         self.br_labels: Dict[int, str] = {}
 
@@ -126,10 +125,12 @@ def _walk_no_nested(node: Any) -> Any:
 class LoopSpec:
     """Invariant of one loop: inv(L) -> bool-ish; optional havoc(ctx, L) for extra state."""
 
-    def __init__(self, inv: Callable[[Any], Any], havoc: Optional[Callable[[Ctx, Any], None]] = None, no_auto: Tuple[str, ...] = ()) -> None:
+    def __init__(self, inv: Callable[[Any], Any], havoc: Optional[Callable[[Ctx, Any], None]] = None, no_auto: Tuple[str, ...] = (),
+                 lists: Optional[Dict[str, str]] = None) -> None:
         self.inv = inv
         self.havoc = havoc
         self.no_auto = no_auto
+        self.lists = lists or {}
 
 
 class Locals:
@@ -250,7 +251,11 @@ class Interp:
                 c = self.closure_of_real(fn)
                 if c is not None:
                     return self.call(c, args, kwargs, node)
-        if getattr(fn, '__pyvc_native__', False) or _is_proxy_method(fn):
+        if getattr(fn, '__pyvc_native__', False) or _is_proxy_method(fn) or getattr(type(fn), '__pyvc_stub__', False):
+            return fn(*args, **kwargs)
+        if isinstance(getattr(fn, '__self__', None), list) and not isinstance(fn, type) and fn.__name__ in _LIST_NATIVE:
+            return fn(*args, **kwargs)
+        if isinstance(getattr(fn, '__self__', None), dict) and not isinstance(fn, type) and fn.__name__ in _DICT_NATIVE and deep_concrete(args[:1]):
             return fn(*args, **kwargs)
         if deep_concrete(args) and deep_concrete(kwargs):
             try:
@@ -271,6 +276,8 @@ class Interp:
         raise Unreached('call of %r with symbolic arguments has no model' % (fn,))
 
     def str_join(self, sep: Any, items: Any) -> Any:
+        if isinstance(items, core.SList) and isinstance(sep, (str, bytes)) and len(sep) == 0:
+            return items.joined
         items = list(self.iterate(items))
         if not items:
             return '' if isinstance(sep, (str, SStr)) and core._kind(sep) == 'str' else b''
@@ -374,14 +381,16 @@ class Interp:
         try:
             if isinstance(node, ast.Lambda):
                 return self.eval(node.body, frame)
+            if c.is_gen:
+                frame.locals['$yields'] = []
             try:
                 self.exec_block(node.body, frame)
             except ReturnSig as r:
                 if c.is_gen:
-                    return GenResult(frame.yields, r.value)
+                    return GenResult(frame.locals['$yields'], r.value)
                 return r.value
             if c.is_gen:
-                return GenResult(frame.yields, None)
+                return GenResult(frame.locals['$yields'], None)
             return None
         finally:
             self.depth -= 1
@@ -676,6 +685,22 @@ class Interp:
         names, attrs = assigned_in(body)
         names |= set(extra_names)
         key = f.closure.key if f.closure else '?'
+        muts = mutated_lists(body)
+        if any(isinstance(n, (ast.Yield, ast.YieldFrom)) for n in _walk_no_nested(ast.Module(body=list(body), type_ignores=[]))):
+            muts.add('$yields')
+        for n in sorted(muts):
+            try:
+                v = f.lookup(n)
+            except KeyError:
+                continue
+            if isinstance(v, list):
+                kind = spec.lists.get(n) or _infer_kind(v)
+                if kind is None:
+                    raise Unreached('list %r is mutated in loop %s of %s: the loop contract must name its element kind' % (n, label, key))
+                f.locals[n] = core.SList.from_list(kind, v)
+                names.add(n)
+            elif isinstance(v, core.SList):
+                names.add(n)
         for n in sorted(names):
             if n in spec.no_auto:
                 continue
@@ -1389,7 +1414,7 @@ class Interp:
 
     def e_Yield(self, e: ast.Yield, f: Frame) -> Any:
         v = self.eval(e.value, f) if e.value is not None else None
-        f.yields.append(v)
+        f.lookup('$yields').append(v)
         if self.registry is not None:
             self.registry.on_yield(self, f, v)
         return None
@@ -1397,7 +1422,7 @@ class Interp:
     def e_YieldFrom(self, e: ast.YieldFrom, f: Frame) -> Any:
         v = self.eval(e.value, f)
         items = list(self.iterate(v))
-        f.yields.extend(items)
+        f.lookup('$yields').extend(items)
         return v.retval if isinstance(v, GenResult) else None
 
     def e_NamedExpr(self, e: ast.NamedExpr, f: Frame) -> Any:
@@ -1490,12 +1515,38 @@ class GenResult:
         self.retval = retval
 
     def __pyvc_iter__(self) -> List[Any]:
+        if isinstance(self.items, core.SList):
+            return self.items.__pyvc_iter__()
         return list(self.items)
+
+
+_LIST_NATIVE = {'append', 'extend', 'insert', 'pop', 'clear', 'reverse', 'copy'}
+_DICT_NATIVE = {'get', 'setdefault', 'pop', 'items', 'keys', 'values', 'update', 'copy', 'clear'}
+_LIST_MUTATORS = {'append', 'extend', 'insert', 'pop', 'clear', 'remove', 'sort', 'reverse'}
+
+
+def mutated_lists(body: List[ast.stmt]) -> set:
+    out: set = set()
+    mod = ast.Module(body=list(body), type_ignores=[])
+    for n in _walk_no_nested(mod):
+        if isinstance(n, ast.Call) and isinstance(n.func, ast.Attribute) and n.func.attr in _LIST_MUTATORS and isinstance(n.func.value, ast.Name):
+            out.add(n.func.value.id)
+    return out
 
 
 def _is_proxy_method(fn: Any) -> bool:
     s = getattr(fn, '__self__', None)
     return s is not None and (isinstance(s, Sym) or getattr(s, '__pyvc_stub__', False))
+
+
+def _infer_kind(items: List[Any]) -> Optional[str]:
+    for x in items:
+        k = core._kind(x)
+        if k:
+            return k
+        if isinstance(x, (int, SInt)) and not isinstance(x, bool):
+            return 'int'
+    return None
 
 
 def _havocable(v: Any) -> bool:
